@@ -19,8 +19,9 @@ PROGS = {
     "C": ([(1, 1), (1, 128), (1, 255), (1, 0), (0, 127)], [0, 0, 0, 1, 0, 0, 0]),
     "D": ([(0, 1), (0, 2), (0, 3), (0, 4), (0, 5), (0, 6)], [0, 1, 0, 0, 0, 1, 0, 0]),
     "E": ([(0, 7), (2, 0), (1, 9), (2, 0), (0, 11)], [0, 1, 0, 0]),
+    "W": ([(0, 3), (0, 4), (2, 0)], [2, 0, 1, 2, 0]),
 }
-CFGS = [("a", 2, 1, "A"), ("b", 3, 2, "B"), ("c", 2, 0, "C"), ("d", 4, 3, "D"), ("e", 3, 1, "C"), ("f", 5, 4, "D"), ("g", 3, 2, "E")]
+CFGS = [("a", 2, 1, "A"), ("b", 3, 2, "B"), ("c", 2, 0, "C"), ("d", 4, 3, "D"), ("e", 3, 1, "C"), ("f", 5, 4, "D"), ("g", 3, 2, "E"), ("h", 3, 2, "W")]
 
 
 def conv(name, args):
